@@ -116,6 +116,9 @@ class Run:
         self.stats = dict(idle_truth_checks=0, alternation_events=0, reboot_order_checks=0, offered_required_checks=0,
                           live_while_registered=False)
         self.by_instant = {}
+        self.actual = set(init_regs)  # registrations as executed
+        self.armed = set()            # registrations whose listener will unregister itself inside its next callback
+        self.retired = set()          # ... and did: no longer judged for the rest of the history
 
     def _listener(self, reg):
         run = self
@@ -131,6 +134,17 @@ class Run:
         return L()
 
     def _event(self, reg, kind, service, source):
+        if reg in self.retired:
+            return
+        if reg in self.armed:
+            # re-entrant call: the listener unregisters itself from inside its own notification.  What the *other*
+            # listeners are told about this very event, and everything afterwards, must not suffer
+            self.armed.discard(reg)
+            self.retired.add(reg)
+            self.actual.discard(reg)
+            self.stats["reentrant_unwatch_calls"] = self.stats.get("reentrant_unwatch_calls", 0) + 1
+            self._unwatch(reg)
+            return
         svc = (service.service_id, service.instance_id, service.major_version, service.minor_version)
         self.events[reg].append((next(self.seq), self.h.loop.time(), kind, svc, SRC_NAME.get(source, source), self.period[reg]))
         self.stats["alternation_events"] += 1
@@ -154,17 +168,31 @@ class Run:
             self.prot.datagram_received(a["data"], SOURCES[a["src"]], a["mc"])
         elif a["kind"] == "lost":
             self.prot.connection_lost(None)
+        elif a["kind"] == "arm":
+            if a["reg"] in self.actual and a["reg"] not in self.retired:
+                self.armed.add(a["reg"])
         elif a["kind"] == "watch":
+            if a["reg"] in self.retired or a["reg"] in self.actual:
+                return
+            self.actual.add(a["reg"])
             self.period[a["reg"]] += 1
             self._watch(a["reg"])
         elif a["kind"] == "unwatch":
-            import someip.config as C
+            if a["reg"] in self.retired or a["reg"] not in self.actual:
+                return
+            self.actual.discard(a["reg"])
+            self.armed.discard(a["reg"])
+            self._unwatch(a["reg"])
 
-            f = REGS[a["reg"]]
-            if f is None:
-                d.stop_watch_all_services(self.listeners[a["reg"]])
-            else:
-                d.stop_watch_service(C.Service(*f), self.listeners[a["reg"]])
+    def _unwatch(self, reg):
+        import someip.config as C
+
+        d = self.prot.discovery
+        f = REGS[reg]
+        if f is None:
+            d.stop_watch_all_services(self.listeners[reg])
+        else:
+            d.stop_watch_service(C.Service(*f), self.listeners[reg])
 
     def _watch(self, reg):
         import someip.config as C
@@ -189,7 +217,7 @@ class Run:
         band = {k for k, v in m.live.items() if v["deadline"] != math.inf and abs(v["deadline"] - (T + RES)) <= RES}
         m.expire(T, inclusive=True)
         for reg, f in REGS.items():
-            if reg not in m.registered:
+            if reg not in m.registered or reg in self.retired:
                 continue
             latest = {}
             for e in self.events[reg]:
@@ -222,6 +250,8 @@ class Run:
             if len(same) != 1 or not prev or not offered:
                 continue
             for reg in REGS:
+                if reg in self.retired:
+                    continue
                 ev = [e for e in self.events[reg] if abs(e[1] - t) <= 2 * RES and e[4] == src]
                 # what this listener believed to be live from that source just before the message
                 believed = {}
@@ -317,6 +347,9 @@ class Builder:
                     self.deadlines[(src, svc)] = math.inf if ttl == FOREVER else t + ttl
         elif a["kind"] == "lost":
             self.deadlines.clear()
+        elif a["kind"] == "arm":
+            if a["reg"] not in self.regs:
+                return False
         elif a["kind"] == "watch":
             if a["reg"] in self.regs:
                 return False
@@ -426,6 +459,8 @@ def random_history(rng):
             a = dict(kind="msg", src=rng.choice("AB"), mc=False, entries=[], reboot=True)
         elif r < 0.64:
             a = dict(kind="lost")
+        elif r < 0.69 and b.regs:
+            a = dict(kind="arm", reg=rng.choice(sorted(b.regs)))
         else:
             reg = hot_reg if hot and rng.random() < 0.6 else rng.choice(list(REGS))
             a = dict(kind="unwatch" if reg in b.regs else "watch", reg=reg)
@@ -442,6 +477,7 @@ def judge(ctx, init, builder, seqkey, seed, replay, core):
     ctx.count("exhaustive_core_histories" if core else "random_histories")
     for k in ("idle_truth_checks", "alternation_events", "reboot_order_checks", "offered_required_checks"):
         ctx.count(k, run.stats[k])
+    ctx.count("reentrant_unwatch_calls", run.stats.get("reentrant_unwatch_calls", 0))
     for t, rank, a in builder.script:
         pass
     for mech, detail in run.violations[:2]:
